@@ -1180,9 +1180,17 @@ def process_template(template_path, repo_root, include_dirs=(), restrict=()):
             e = match_close(src, o, '{', '}')
             mtext, _ = strip_logs(src[mm[0].start():e + 1])
             mtext, _ = replace_format(mtext)
+            n_cast = 0
+            if 'fnptr_opaque' in tk[3:]:
+                # R16: `X as fn(A..) -> &R` (a fn item coerced to a fn pointer) becomes `verif_of_FnP_<A..>__<R>(X)`, the unit's assumed
+                # constructor of the opaque handle: "the pointer behaves as the fn item it was made from"
+                cast = re.compile(r'(\$?[A-Za-z_][A-Za-z0-9_]*)\s+as\s+' + FNPTR_TY.pattern.replace('\\b', '', 1))
+                mtext, n_cast = cast.subn(lambda m_: 'verif_of_' + fnptr_handle_name(FNPTR_TY.search(m_.group(0))) + '(' + m_.group(1) + ')', mtext)
             emit(squeeze_blank(mtext))
             items.append({'kind': 'macro', 'name': tk[2], 'file': tk[1], 'lines': [line_of(src, mm[0].start()), line_of(src, e)],
                           'sha256': hashlib.sha256(src[mm[0].start():e + 1].encode()).hexdigest()})
+            if n_cast:
+                items[-1]['rules'] = {'R16_fnptr_casts_as_handle_constructors': n_cast}
             i += 1
             continue
         if s.startswith('//@lemma '):
